@@ -327,6 +327,10 @@ def observe(case, ser, with_vel=False, rhs_seed=0, keep=None):
         frames[f] = fs.frames.Frame(f, V, E, C, time=ser["times"][f])
         del V, E, C
     guess = {int(f): {int(a): int(b) for a, b in g.items()} for f, g in ser["guess"].items()}
+    if sum(len(g) for g in guess.values()) % 3 == 1:
+        # ids that come out of numpy code (np.where, array indexing) are numpy integers: the same numbers, the same hashes
+        import numpy as np
+        guess = {f: {np.int64(a): np.int64(b) for a, b in g.items()} for f, g in guess.items()}
     raised = ""
     sess = None
     try:
